@@ -21,6 +21,7 @@
 """SSH connection handlers"""
 
 import asyncio
+import copy
 import functools
 import getpass
 import inspect
@@ -6065,6 +6066,13 @@ class SSHServerConnection(SSHConnection):
         for alg in peer_host_key_algs:
             keypair = self._server_host_keys.get(alg)
             if keypair:
+                # The host keys are shared by all connections of a
+                # listener. Record what was negotiated for this connection
+                # on a copy, as another connection may choose a different
+                # signature algorithm for the same key before this key
+                # exchange gets to sign with it.
+                keypair = copy.copy(keypair)
+
                 if alg != keypair.algorithm:
                     keypair.set_sig_algorithm(alg)
 
